@@ -231,6 +231,24 @@ async fn scan_case(run: usize, shards: usize, nkeys: usize, count: usize, log: &
     all.sort();
     log.push(json!({"a": "reset", "run": run, "shards": shards}));
     log.push(json!({"a": "scanall", "run": run, "shards": shards, "count": count, "keys": all, "returned": got, "rounds": rounds}));
+    // the property read literally: one SCAN call is answered alike by a 1-shard and an N-shard server holding the
+    // same keys (same cursor, same keys up to order) - the model leaves a single call free, the twin does not
+    let clock1 = HarnessTime(Arc::new(Mutex::new(1000)));
+    let one: State = ShardedActorState::with_config_and_time_source(ShardConfig::with_shards(1), clock1);
+    for i in 0..nkeys {
+        exec(&one, &vec![b("SET"), b(&format!("key{i}")), b("v")]).await;
+    }
+    for argv in [vec![b("SCAN"), b("0")], vec![b("SCAN"), b("0"), b("COUNT"), b(&count.to_string())], vec![b("SCAN"), b("0"), b("MATCH"), b("key1*")],
+                 vec![b("SCAN"), b("0"), b("MATCH"), b("key*"), b("COUNT"), b("2")], vec![b("SCAN"), b("7"), b("COUNT"), b(&count.to_string())]] {
+        let mut sides = Vec::new();
+        for stx in [&one, &st] {
+            let r = arr(exec(stx, &argv).await);
+            let (cur, mut ks) = if r.len() == 2 { (String::from_utf8_lossy(&bulk(&r[0])).to_string(), arr(r[1].clone()).iter().map(|k| String::from_utf8_lossy(&bulk(k)).to_string()).collect::<Vec<_>>()) } else { ("?".to_string(), vec![]) };
+            ks.sort();
+            sides.push(json!({"cursor": cur, "keys": ks}));
+        }
+        log.push(json!({"a": "scanpair", "run": run, "shards": shards, "argv": argv.iter().map(|a| String::from_utf8_lossy(a).to_string()).collect::<Vec<_>>(), "one": sides[0], "many": sides[1]}));
+    }
 }
 
 pub fn main(args: &[String]) -> i32 {
